@@ -1,6 +1,7 @@
 CONSTANTS
-  Workers <- MCNoWorkers
-  NTs <- MCNTs
+  Workers <- Workers_cover
+  NTs <- NTs_cover
+  ThreadNames <- Threads_cover
   WyFix = FALSE
   AllowSpurious = FALSE
 INIT Init_cover
